@@ -81,6 +81,10 @@ type Net struct {
 	// Accepts counts inbound TCP connections per listener endpoint name.
 	accepts map[string]int
 	subs    []chan *Obs
+	// egress monitor (sniff.go)
+	sniff        *sniffer
+	egress       []*Egress
+	egressByCase map[string][]*Egress
 }
 
 // Subscribe returns a channel that receives every observation from now on
@@ -489,7 +493,11 @@ func (n *Net) Listen(name, addr string) (*TCPListener, error) {
 }
 
 // Conns returns the connections accepted so far.
-func (l *TCPListener) Conns() []*TCPConn { l.mu.Lock(); defer l.mu.Unlock(); return append([]*TCPConn{}, l.conns...) }
+func (l *TCPListener) Conns() []*TCPConn {
+	l.mu.Lock()
+	defer l.mu.Unlock()
+	return append([]*TCPConn{}, l.conns...)
+}
 
 // ConnByID finds an accepted connection.
 func (l *TCPListener) ConnByID(id int) *TCPConn {
